@@ -228,6 +228,7 @@ proof fn lemma_nul_at(c: Seq<u8>, from: int)
 
 impl BigBedRead {
 //@extract method bigtools/src/bbi/bigbedread.rs autosql "^impl<R: BBIFileRead> BigBedRead<R>"
+//@rule R16
 //@sub /Result<Option<String>, BBIReadError>/ => Result<Option<Text>, BBIReadError> min=1
 //@sub /self\.reader\(\)\.raw_reader\(\)/ => &mut self.read min=1
 //@sub /let mut reader = BufReader::new\(reader\);\n/ => "" min=0
@@ -309,6 +310,7 @@ pub fn read_info(file: &mut VRead) -> (r: Result<BBIFileInfo, BBIFileReadInfoErr
 
 impl BigWigReadOpenError {
 //@extract method bigtools/src/bbi/bigwigread.rs from "impl From<BBIFileReadInfoError> for BigWigReadOpenError"
+//@rule R16
 //@as bw_open_error_from
 //@sub /fn from\(error: BBIFileReadInfoError\) -> Self/ => pub fn from_info_error(error: BBIFileReadInfoError) -> BigWigReadOpenError min=1
 //@ret r
@@ -320,6 +322,7 @@ impl BigWigReadOpenError {
 }
 impl BigBedReadOpenError {
 //@extract method bigtools/src/bbi/bigbedread.rs from "impl From<BBIFileReadInfoError> for BigBedReadOpenError"
+//@rule R16
 //@as bb_open_error_from
 //@sub /fn from\(error: BBIFileReadInfoError\) -> Self/ => pub fn from_info_error(error: BBIFileReadInfoError) -> BigBedReadOpenError min=1
 //@ret r
@@ -337,6 +340,7 @@ impl BigBedReadOpenError {
 //@end
 impl BigWigRead {
 //@extract method bigtools/src/bbi/bigwigread.rs open "^impl<R> BigWigRead<R>\s+where\s+R: BBIFileRead"
+//@rule R16
 //@as bw_open
 //@sub /\(mut read: R\) -> Result<Self, BigWigReadOpenError>/ => (mut read: VRead) -> Result<BigWigRead, BigWigReadOpenError> min=1
 //@sub /read_info\(&mut read\)\?/ => (match read_info(&mut read) { Ok(i__) => i__, Err(e__) => return Err(BigWigReadOpenError::from_info_error(e__)) }) min=0
@@ -353,6 +357,7 @@ impl BigWigRead {
 }
 impl BigBedRead {
 //@extract method bigtools/src/bbi/bigbedread.rs open "^impl<R: BBIFileRead> BigBedRead<R>"
+//@rule R16
 //@as bb_open
 //@sub /\(mut read: R\) -> Result<Self, BigBedReadOpenError>/ => (mut read: VRead) -> Result<BigBedRead, BigBedReadOpenError> min=1
 //@sub /read_info\(&mut read\.raw_reader\(\)\)\?/ => (match read_info(&mut read) { Ok(i__) => i__, Err(e__) => return Err(BigBedReadOpenError::from_info_error(e__)) }) min=0
